@@ -2,6 +2,7 @@
 From Coq Require Import ZArith List Bool Lia.
 Import ListNotations.
 From XO Require Import Slots Strides BufOps Types Format Check LayoutProofs Update UpdateProofs UpdateSize.
+From XO Require Import Rollback.
 Open Scope Z_scope.
 
 (* the model decides which assignments can be honoured: the element must exist, the new value
@@ -29,9 +30,24 @@ Proof. exact check_updates_sound. Qed.
 Theorem C11_size_never_changes : forall bs sz bs' sz' x, retag (VStr bs sz) (VStr bs' sz') = Some x -> x = VStr bs' sz.
 Proof. exact retag_string_keeps_size. Qed.
 
+(* THE UNDO LOGIC of Struct._update / Array._update (backup; parts one by one; on any exception put the backup
+   back and re-raise), modelled with a refusal possible at EVERY position of the part list: a refused update
+   leaves the whole buffer exactly as it was, an honoured one is the result of all part writes, bytes outside
+   the object are untouched either way *)
+Theorem C11_rollback_all_or_nothing : forall m off size ws, in_range m off size -> Forall (inside off size) ws ->
+  let r := update_with_rollback m off size ws in
+  same_outside m (fst r) off size /\
+  (snd r = false -> fst r = m) /\
+  (snd r = true -> fst r = fst (run_parts m ws) /\ ~ In PRefuse ws).
+Proof. exact rollback_all_or_nothing. Qed.
+Theorem C11_refusal_at_any_position : forall m off size pre post, Forall (fun w => w <> PRefuse) pre ->
+  snd (update_with_rollback m off size (pre ++ PRefuse :: post)) = false.
+Proof. exact refusal_at_any_position. Qed.
 Print Assumptions C11_too_large_string_refused.
 Print Assumptions C11_missing_element_refused.
 Print Assumptions C11_other_shape_refused.
 Print Assumptions C11_history_sound.
 Print Assumptions C11_size_never_changes.
 Print Assumptions C11_extent_never_changes.
+Print Assumptions C11_rollback_all_or_nothing.
+Print Assumptions C11_refusal_at_any_position.
